@@ -2,6 +2,7 @@ package vp8lgen
 
 import (
 	"fmt"
+	"os"
 	"strings"
 )
 
@@ -36,7 +37,10 @@ var TransformOrders = func() [][]int {
 }()
 
 // Dims is the dimension menu.
-var Dims = [][2]int{{4, 4}, {1, 1}, {2, 1}, {1, 17}, {2, 9}, {3, 5}, {5, 3}, {7, 2}, {8, 8}, {9, 4}, {16, 3}, {17, 2}, {33, 2}}
+// The last entry is the only picture large enough for copies whose length needs 10 extra bits.
+var Dims = [][2]int{{4, 4}, {1, 1}, {2, 1}, {1, 17}, {2, 9}, {3, 5}, {5, 3}, {7, 2}, {8, 8}, {9, 4}, {16, 3}, {17, 2}, {33, 2}, {128, 160}}
+
+var debugTokens = os.Getenv("VP8LGEN_DEBUG") != ""
 
 type token struct {
 	kind     int // 0 literal, 1 copy, 2 cache index
@@ -251,7 +255,10 @@ func (g *gen) imageStreamC(px []uint32, xsize, ysize int, level0 bool, forceCach
 	var groupOf func(x, y int) int
 	groupOf = func(x, y int) int { return 0 }
 	if level0 {
-		meta := pk.Pick(5, "meta") // 0 none, 1 present/all zero, 2 checkerboard, 3 sparse ids, 4 checkerboard whose entropy image has its own colour cache of the main image's size
+		// 0 none, 1 present/all zero, 2 checkerboard, 3 sparse ids (more groups than pixels), 4 checkerboard whose
+		// entropy image has its own colour cache of the main image's size, 5 unused groups in between but fewer
+		// groups than pixels on the larger pictures, 6 group ids above 1000
+		meta := pk.Pick(7, "meta")
 		if meta == 0 {
 			g.w.put(0, 1)
 		} else {
@@ -266,6 +273,10 @@ func (g *gen) imageStreamC(px []uint32, xsize, ysize int, level0 bool, forceCach
 					ids[i] = (i%mw + i/mw) % 2
 				case 3:
 					ids[i] = []int{0, 300, 7}[i%3]
+				case 5:
+					ids[i] = []int{0, 40, 7}[i%3]
+				case 6:
+					ids[i] = []int{0, 1200, 7}[i%3]
 				}
 			}
 			mpx := make([]uint32, len(ids))
@@ -298,7 +309,7 @@ func (g *gen) imageStreamC(px []uint32, xsize, ysize int, level0 bool, forceCach
 	}
 	// token program
 	n := xsize * ysize
-	copyProg := pk.Pick(8, lbl+"copies") // 0 none; else a copy program
+	copyProg := pk.Pick(9, lbl+"copies") // 0 none; else a copy program
 	cacheUse := 0
 	if cacheBits > 0 {
 		cacheUse = 1 + pk.Pick(3, lbl+"cache-use") // 1: hits whenever possible, 2: hits after copies only, 3: never
@@ -377,6 +388,17 @@ func (g *gen) imageStreamC(px []uint32, xsize, ysize int, level0 bool, forceCach
 				if pos > 2 && pos%xsize == xsize-1 {
 					did = emitCopy(3, 120+2)
 				}
+			case 8: // long copies of every extra-bit class (up to 10 length bits), one literal in between,
+				// over distances whose prefix symbols differ: the longest token the format allows
+				if !lastWasCopy && pos >= 1 {
+					lengths := []int{4096, 3073, 3072, 2049, 2048, 1537, 1025, 769, 513, 257, 129, 70, 33}
+					dists := []int{2, 120 + 1, 120 + xsize, 120 + 3*xsize + 1, 1, 120 + 2, 120 + 40*xsize}
+					did = emitCopy(lengths[step%len(lengths)], dists[step%len(dists)])
+					if !did {
+						did = emitCopy(lengths[step%len(lengths)], 2)
+					}
+					step++
+				}
 			}
 			if did {
 				continue
@@ -442,32 +464,41 @@ func (g *gen) imageStreamC(px []uint32, xsize, ysize int, level0 bool, forceCach
 		}
 	}
 	// prefix codes
-	shape := pk.Pick(5, lbl+"code-shape") // 0 plain huffman/simple where possible, 1 never simple, 2 skewed to length 15, 3 rle+max_symbol, 4 literal code lengths only
+	// 0 plain huffman/simple where possible, 1 never simple, 2 skewed to length 15 (low symbols rare), 3 rle+max_symbol,
+	// 4 literal code lengths only, 5 skewed to length 15 the other way (high symbols rare: length prefixes, far distances)
+	shape := pk.Pick(6, lbl+"code-shape")
 	codes := make([][5]*code, numGroups)
 	for gi := range groups {
 		for k := 0; k < 5; k++ {
 			f := groups[gi].freq[k]
-			if shape == 2 {
-				// force a long, skewed tree over the used symbols (and a few unused ones)
-				used := 0
-				for _, c := range f {
-					if c > 0 {
-						used++
+			var lens []int
+			if shape == 2 || shape == 5 {
+				// a skewed code whose two rarest symbols have length 15: the symbols in use ordered
+				// from the lowest (shape 2) or from the highest (shape 5: length prefixes, far distance
+				// codes) as the rare end, padded with unused symbols to at least 16
+				var order []int
+				inUse := make([]bool, len(f))
+				for s := range f {
+					inUse[s] = f[s] > 0
+				}
+				for i := range f {
+					s := i
+					if shape == 5 {
+						s = len(f) - 1 - i
+					}
+					if inUse[s] {
+						order = append(order, s)
 					}
 				}
-				a, b := 1, 1
-				for s := 0; s < len(f) && (used < 18 || f[s] > 0); s++ {
-					if f[s] == 0 {
-						used++
-					}
-					f[s] = a
-					a, b = b, a+b
-					if a > 1<<24 {
-						a, b = 1, 1
+				for s := 0; s < len(f) && len(order) < 16; s++ {
+					if !inUse[s] {
+						order = append(order, s)
 					}
 				}
+				lens = skewLens(len(f), order)
+			} else {
+				lens = lengthsFromFreq(f, 15)
 			}
-			lens := lengthsFromFreq(f, 15)
 			codes[gi][k] = newCode(lens)
 			g.writeCode(codes[gi][k], sizes[k], shape)
 		}
@@ -485,6 +516,10 @@ func (g *gen) imageStreamC(px []uint32, xsize, ysize int, level0 bool, forceCach
 			pos++
 		case 1:
 			ls, ln, le := prefixEncode(t.length)
+			if debugTokens {
+				ds0, _, _ := prefixEncode(t.distCode)
+				println("copy len", t.length, "greenlen", c[0].lens[256+ls], "extra", ln, "distlen", c[4].lens[ds0], "bitpos", (len(g.w.buf)*8+int(g.w.nacc))%32)
+			}
 			c[0].write(g.w, 256+ls)
 			g.w.put(uint32(le), ln)
 			ds, dn, de := prefixEncode(t.distCode)
@@ -657,4 +692,58 @@ func (g *gen) writeCode(c *code, alphabet int, shape int) {
 		clCode.write(g.w, t.sym)
 		g.w.put(uint32(t.extra), t.nbits)
 	}
+}
+
+// skewLens returns the lengths of a complete prefix code over the symbols of order (rarest
+// first, at least 2, alphabet size n) in which the two rarest symbols have length
+// min(len(order)-1, 15): a chain hanging from one leaf of a balanced top tree.
+func skewLens(n int, order []int) []int {
+	lens := make([]int, n)
+	m := len(order)
+	if m == 1 {
+		lens[order[0]] = 1
+		return lens
+	}
+	if m <= 16 {
+		for i, s := range order {
+			l := m - i
+			if i == 0 {
+				l = m - 1
+			}
+			lens[s] = l
+		}
+		return lens
+	}
+	// t: depth of the balanced top; one depth-t slot carries the chain t+1 .. 15, 15
+	t := 1
+	for (1<<uint(t))-1+16-t < m {
+		t++
+	}
+	chain := 16 - t
+	for i := 0; i < chain; i++ {
+		l := 15 - i + 1
+		if i == 0 {
+			l = 15
+		}
+		if l > 15 {
+			l = 15
+		}
+		lens[order[i]] = l
+	}
+	// chain lengths: 15, 15, 14, ..., t+1
+	for i := 1; i < chain; i++ {
+		lens[order[i]] = 15 - (i - 1)
+	}
+	rest := order[chain:]
+	capacity := (1 << uint(t)) - 1
+	merge := capacity - len(rest) // pairs of depth-t leaves replaced by one depth t-1 leaf
+	for i, s := range rest {
+		// the most frequent (last) symbols get the shorter codes
+		if len(rest)-1-i < merge {
+			lens[s] = t - 1
+		} else {
+			lens[s] = t
+		}
+	}
+	return lens
 }
